@@ -5,6 +5,7 @@ mod compact;
 mod geom;
 mod hilbert;
 mod ids;
+mod total;
 mod util;
 
 use serde_json::Value;
@@ -34,6 +35,7 @@ fn main() {
                 "C10" => compact::gen_c10(tier, seed, out, mc),
                 "C17" => hilbert::gen_anchors("C17", tier, seed, out),
                 "C12" => hilbert::gen_c12(tier, seed, out),
+                "C14" => total::gen_c14(tier, seed, out, mc, kv.get("release").map(|s| s.as_str())),
                 "C09" => ids::gen_c09(tier, seed, out, mc, true),
                 _ => {
                     eprintln!("unknown property {}", prop);
@@ -41,6 +43,11 @@ fn main() {
                 }
             };
             util::write_summary(out, &summary);
+        }
+        "call" => {
+            util::quiet_panics();
+            let spec: Value = serde_json::from_str(&args[2]).expect("call spec");
+            total::child_call(&spec);
         }
         _ => {
             eprintln!("unknown command");
